@@ -12,13 +12,18 @@ expression is differentiable.
   corresponding theorem stops compiling.
 * `rules_covered`, `raising_table`, `lib_plain_eq_val`, `safe_power_generated_known` — the generated tables are exactly
   the ones the theorems below speak about.
-* `ad_val`, `ad_jac` — for EVERY program tree (row-wise rules, left matrix products, slicing, l2_norm, maximum,
-  initAdArrays leaves), every point: forward-mode values are the plain evaluation and every Jacobian row is the Fréchet
-  derivative of the corresponding output component, by induction over the tree (chain rule).
+* `ad_val`, `ad_jac` — for EVERY expression (row-wise rules incl. maximum, left matrix products, slicing, l2_norm with its
+  generated rule, initAdArrays leaves, references to shared results), every point: forward-mode values are the plain
+  evaluation and every Jacobian row is the Fréchet derivative of the corresponding output component, by induction over the
+  tree (chain rule).  `prog_ad_val`, `prog_ad_jac` — the same for straight-line PROGRAMS `let t₀ = …; let t₁ = …; body` in
+  which results are computed once and used several times (expression DAGs); `den_subst` / `ad_subst`: sharing = substitution.
+* `excluded_sets`, `kinks_necessary` — what is excluded from the rule domains and why (kinks vs. domain restrictions).
 -/
 import PorepyVerif.C01.Lemmas
 import PorepyVerif.C01.Generated
 set_option linter.unusedSimpArgs false
+set_option linter.unusedTactic false
+set_option linter.unreachableTactic false
 namespace PorepyVerif.C01
 open Real
 
@@ -445,6 +450,179 @@ theorem rule_sound_neg : Sound1 Gen.neg (fun x _ => -x) (fun _ _ => True) where
   deriv := by intro x c _; simpa [Gen.neg, SExpr.evalR] using hasDerivAt_neg x
   no_other := rfl
 
+
+/-! ## maximum and l2_norm (generated since the deepening round) -/
+
+theorem hasFDerivAt_max_of_lt {x y : ℝ} (h : x < y) :
+    HasFDerivAt (fun p : ℝ × ℝ => max p.1 p.2) (ContinuousLinearMap.snd ℝ ℝ ℝ) (x, y) := by
+  have hs : HasFDerivAt (Prod.snd : ℝ × ℝ → ℝ) (ContinuousLinearMap.snd ℝ ℝ ℝ) (x, y) := hasFDerivAt_snd
+  refine hs.congr_of_eventuallyEq ?_
+  have : {p : ℝ × ℝ | p.1 < p.2} ∈ nhds (x, y) := (isOpen_lt continuous_fst continuous_snd).mem_nhds h
+  filter_upwards [this] with p hp
+  exact max_eq_right (le_of_lt hp)
+
+theorem hasFDerivAt_max_of_gt {x y : ℝ} (h : y < x) :
+    HasFDerivAt (fun p : ℝ × ℝ => max p.1 p.2) (ContinuousLinearMap.fst ℝ ℝ ℝ) (x, y) := by
+  have hs : HasFDerivAt (Prod.fst : ℝ × ℝ → ℝ) (ContinuousLinearMap.fst ℝ ℝ ℝ) (x, y) := hasFDerivAt_fst
+  refine hs.congr_of_eventuallyEq ?_
+  have : {p : ℝ × ℝ | p.2 < p.1} ∈ nhds (x, y) := (isOpen_lt continuous_snd continuous_fst).mem_nhds h
+  filter_upwards [this] with p hp
+  exact max_eq_left (le_of_lt hp)
+
+theorem hasDerivAt_max_const {x c : ℝ} (h : x ≠ c) :
+    HasDerivAt (fun t => max t c) (if c > x then 0 else 1) x := by
+  rcases lt_or_gt_of_ne h with h | h
+  · rw [if_pos h]
+    apply hasDerivAt_of_eventually_const (k := c)
+    filter_upwards [Iio_mem_nhds h] with t ht
+    exact max_eq_right (le_of_lt ht)
+  · rw [if_neg (not_lt.mpr h.le)]
+    refine (hasDerivAt_id x).congr_of_eventuallyEq ?_
+    filter_upwards [Ioi_mem_nhds h] with t ht
+    exact max_eq_left (le_of_lt ht)
+
+theorem ifgt_max (x y : ℝ) : (if y > x then y else x) = max x y := by
+  by_cases h : y > x
+  · rw [if_pos h, max_eq_right h.le]
+  · rw [if_neg h, max_eq_left (not_lt.mp h)]
+
+theorem rule_sound_maximum_AdAd : Sound2 Gen.maximum_AdAd (fun x y => max x y) (fun x y => x ≠ y) where
+  val := by intro x y; simp [Gen.maximum_AdAd, SExpr.evalR, ifgt_max]
+  deriv := by
+    intro x y h
+    rcases lt_or_gt_of_ne h with h | h
+    · refine (hasFDerivAt_max_of_lt h).congr_fderiv ?_
+      have h' : y > x := h
+      simp [Gen.maximum_AdAd, SExpr.evalR, h']
+    · refine (hasFDerivAt_max_of_gt h).congr_fderiv ?_
+      have h' : ¬ y > x := not_lt.mpr h.le
+      simp [Gen.maximum_AdAd, SExpr.evalR, h']
+  has_other := rfl
+
+theorem rule_sound_maximum_AdA : Sound1 Gen.maximum_AdA (fun x c => max x c) (fun x c => x ≠ c) where
+  val := by intro x c; simp [Gen.maximum_AdA, SExpr.evalR, ifgt_max]
+  deriv := by intro x c h; simpa [Gen.maximum_AdA, SExpr.evalR] using hasDerivAt_max_const h
+  no_other := rfl
+
+theorem rule_sound_maximum_AdS : Sound1 Gen.maximum_AdS (fun x c => max x c) (fun x c => x ≠ c) where
+  val := by intro x c; simp [Gen.maximum_AdS, SExpr.evalR, ifgt_max]
+  deriv := by intro x c h; simpa [Gen.maximum_AdS, SExpr.evalR] using hasDerivAt_max_const h
+  no_other := rfl
+
+theorem rule_sound_maximum_AAd : Sound1 Gen.maximum_AAd (fun x c => max c x) (fun x c => x ≠ c) where
+  val := by intro x c; simp [Gen.maximum_AAd, SExpr.evalR, ifgt_max]
+  deriv := by
+    intro x c h
+    have hf : (fun t => max c t) = fun t => max t c := funext fun t => max_comm c t
+    rw [hf]
+    have := hasDerivAt_max_const h
+    refine this.congr_deriv ?_
+    rcases lt_or_gt_of_ne h with h | h
+    · have h' : ¬ x > c := not_lt.mpr h.le
+      simp [Gen.maximum_AAd, SExpr.evalR, h', h]
+    · have h' : ¬ c > x := not_lt.mpr h.le
+      simp [Gen.maximum_AAd, SExpr.evalR, h', h]
+  no_other := rfl
+
+theorem rule_sound_maximum_SAd : Sound1 Gen.maximum_SAd (fun x c => max c x) (fun x c => x ≠ c) where
+  val := by intro x c; simp [Gen.maximum_SAd, SExpr.evalR, ifgt_max]
+  deriv := by
+    intro x c h
+    have hf : (fun t => max c t) = fun t => max t c := funext fun t => max_comm c t
+    rw [hf]
+    have := hasDerivAt_max_const h
+    refine this.congr_deriv ?_
+    rcases lt_or_gt_of_ne h with h | h
+    · have h' : ¬ x > c := not_lt.mpr h.le
+      simp [Gen.maximum_SAd, SExpr.evalR, h', h]
+    · have h' : ¬ c > x := not_lt.mpr h.le
+      simp [Gen.maximum_SAd, SExpr.evalR, h', h]
+  no_other := rfl
+
+theorem rule_sound_l2_norm_dim1 : Sound1 Gen.l2_norm_dim1 (fun x _ => |x|) (fun x _ => x ≠ 0) where
+  val := by intro x c; simp [Gen.l2_norm_dim1, SExpr.evalR, UFun.evalR]
+  deriv := by intro x c hx; simpa [Gen.l2_norm_dim1, SExpr.evalR, UFun.evalR] using hasDerivAt_signR_abs hx
+  no_other := rfl
+
+/-- l2_norm, dim ≥ 2: the value is the Euclidean norm of the group and, when the norm is above the tolerance of the code,
+    the generated factors are its gradient: ∇‖x‖ = x / ‖x‖. -/
+theorem rule_sound_l2_norm (d : ℕ) (v : Fin d → ℝ) :
+    (∀ x S, Gen.l2_norm.val.evalR [x, S] = √S) ∧
+    (l2tol < norm2 v →
+      HasFDerivAt (norm2 (d := d))
+        (∑ k : Fin d, Gen.l2_norm.coef.evalR [v k, ∑ k' : Fin d, v k' ^ 2]
+          • ContinuousLinearMap.proj (R := ℝ) (φ := fun _ : Fin d => ℝ) k) v) := by
+  refine ⟨by intro x S; simp [Gen.l2_norm, SExpr.evalR, UFun.evalR], ?_⟩
+  intro hpos
+  set S : ℝ := ∑ k : Fin d, v k ^ 2 with hS
+  have hpos' : l2tol < √S := hpos
+  have htol : (0 : ℝ) < l2tol := by unfold l2tol; positivity
+  have hn : √S ≠ 0 := (lt_trans htol hpos').ne'
+  have hS0 : S ≠ 0 := fun h0 => hn (by rw [h0, Real.sqrt_zero])
+  have hsum : HasFDerivAt (fun y : Fin d → ℝ => ∑ k : Fin d, y k ^ 2)
+      (∑ k : Fin d, (2 * v k) • ContinuousLinearMap.proj (R := ℝ) (φ := fun _ : Fin d => ℝ) k) v := by
+    refine HasFDerivAt.fun_sum (fun k _ => ?_)
+    have hk : HasFDerivAt (fun y : Fin d → ℝ => y k) (ContinuousLinearMap.proj (R := ℝ) (φ := fun _ : Fin d => ℝ) k) v :=
+      hasFDerivAt_apply k v
+    have h2 := hk.mul hk
+    have hf : (fun y : Fin d → ℝ => y k ^ 2) = (fun y : Fin d → ℝ => y k) * (fun y : Fin d → ℝ => y k) := by
+      funext y; simp [pow_two]
+    rw [hf]
+    refine h2.congr_fderiv ?_
+    ext y
+    simp
+    ring
+  have hsq : HasFDerivAt (norm2 (d := d)) _ v := hsum.sqrt (by rw [← hS]; exact hS0)
+  refine hsq.congr_fderiv ?_
+  rw [← hS, Finset.smul_sum]
+  refine Finset.sum_congr rfl (fun k _ => ?_)
+  have hc : Gen.l2_norm.coef.evalR [v k, S] = v k / √S := by
+    have e : ((4951760157141521 : ℚ) / 4951760157141521099596496896 : ℚ) = ((4951760157141521 : ℝ) / 4951760157141521099596496896 : ℝ) := by
+      push_cast; ring
+    have hgt : √S > ((((4951760157141521 : ℚ) / 4951760157141521099596496896 : ℚ)) : ℝ) := by
+      rw [e]; exact hpos'
+    simp only [Gen.l2_norm, SExpr.evalR, UFun.evalR, List.getD_cons_zero, List.getD_cons_succ]
+    rw [if_pos hgt]
+  rw [hc, smul_smul]
+  congr 1
+  field_simp
+
+
+/-! ## RegularizedHeaviside -/
+
+
+theorem heavisideSmooth_hasDerivAt {x c : ℝ} (hc : c ≠ 0) :
+    HasDerivAt (fun t => heavisideSmoothR t c) (π⁻¹ * c * (c ^ 2 + x ^ 2)⁻¹) x := by
+  have h1 : HasDerivAt (fun t : ℝ => t / c) (1 / c) x := by simpa using (hasDerivAt_id x).div_const c
+  have h2 := (h1.arctan.const_mul (2 / π)).const_add 1
+  have h3 := h2.const_mul (1 / 2 : ℝ)
+  refine h3.congr_deriv ?_
+  have hpi : π ≠ 0 := Real.pi_ne_zero
+  have hs : c ^ 2 + x ^ 2 ≠ 0 := by positivity
+  field_simp
+
+/-- `RegularizedHeaviside(partial(heaviside_smooth, eps=eps))`: the VALUE is the sharp step `heaviside(x, 0)`, the Jacobian
+    factor is the derivative of the REGULARIZATION `heaviside_smooth(x, eps)` — by design not the derivative of the value. -/
+theorem rule_regularized_heaviside (x eps z : ℝ) :
+    Gen.regularized_heaviside.val.evalR [x, eps, z] = heavisideR x 0 ∧
+    (eps ≠ 0 → HasDerivAt (fun t => heavisideSmoothR t eps) (Gen.regularized_heaviside.dself.evalR [x, eps, z]) x) := by
+  refine ⟨by simp [Gen.regularized_heaviside, SExpr.evalR], ?_⟩
+  intro he
+  refine (heavisideSmooth_hasDerivAt he).congr_deriv ?_
+  simp [Gen.regularized_heaviside, SExpr.evalR, Real.rpow_neg_one]
+
+/-- … so it lies outside the property on purpose: away from 0 the step has derivative 0, the class reports a positive number. -/
+theorem regularized_heaviside_not_exact (x eps z : ℝ) (hx : x ≠ 0) (he : 0 < eps) :
+    ¬ HasDerivAt (fun t => heavisideR t 0) (Gen.regularized_heaviside.dself.evalR [x, eps, z]) x := by
+  intro h
+  have h0 := heavisideR_hasDerivAt (z := 0) hx
+  have e := h.unique h0
+  have hpos : 0 < π⁻¹ * eps * (eps ^ 2 + x ^ 2)⁻¹ := by positivity
+  have hd : Gen.regularized_heaviside.dself.evalR [x, eps, z] = π⁻¹ * eps * (eps ^ 2 + x ^ 2)⁻¹ := by
+    simp [Gen.regularized_heaviside, SExpr.evalR, Real.rpow_neg_one]
+  rw [hd] at e
+  exact hpos.ne' e
+
 /-! ## bundles (one audited statement per rule family; the components are the `rule_sound_*` theorems above) -/
 
 /-- every generated library rule (functions.py) except safe_power, which has three parameters and its own theorem -/
@@ -466,7 +644,8 @@ theorem lib_rules_sound :
     Sound1 Gen.arctanh (fun x _ => Real.artanh x) (fun x _ => -1 < x ∧ x < 1) ∧
     Sound1 Gen.heaviside (fun x z => heavisideR x z) (fun x _ => x ≠ 0) ∧
     Sound1 Gen.heaviside_smooth heavisideSmoothR (fun _ eps => eps ≠ 0) ∧
-    Sound1 Gen.characteristic_function charR (fun x tol => |x| ≠ tol) :=
+    Sound1 Gen.characteristic_function charR (fun x tol => |x| ≠ tol) ∧
+    Sound1 Gen.l2_norm_dim1 (fun x _ => |x|) (fun x _ => x ≠ 0) :=
   ⟨rule_sound_exp,
    rule_sound_log,
    rule_sound_abs,
@@ -484,7 +663,8 @@ theorem lib_rules_sound :
    rule_sound_arctanh,
    rule_sound_heaviside,
    rule_sound_heaviside_smooth,
-   rule_sound_characteristic_function⟩
+   rule_sound_characteristic_function,
+   rule_sound_l2_norm_dim1⟩
 
 /-- every generated arithmetic rule (AdArray overloads × operand kind) -/
 theorem arith_rules_sound :
@@ -549,14 +729,33 @@ theorem arith_rules_sound :
    rule_sound_rsub_Ad,
    rule_sound_neg⟩
 
+/-- `maximum(var_0, var_1)` for every combination of AdArray / numpy array / python scalar operands: the value is the larger
+    entry and, away from ties, the 0/1 factors select the Jacobian row of the larger one -/
+theorem max_rules_sound :
+    Sound2 Gen.maximum_AdAd (fun x y => max x y) (fun x y => x ≠ y) ∧
+    Sound1 Gen.maximum_AdA (fun x c => max x c) (fun x c => x ≠ c) ∧
+    Sound1 Gen.maximum_AdS (fun x c => max x c) (fun x c => x ≠ c) ∧
+    Sound1 Gen.maximum_AAd (fun x c => max c x) (fun x c => x ≠ c) ∧
+    Sound1 Gen.maximum_SAd (fun x c => max c x) (fun x c => x ≠ c) :=
+  ⟨rule_sound_maximum_AdAd, rule_sound_maximum_AdA, rule_sound_maximum_AdS, rule_sound_maximum_AAd, rule_sound_maximum_SAd⟩
+
 /-! ## the generated tables are the ones covered above -/
 
-theorem rules_covered : (Gen.arith ++ Gen.lib).map (·.name) =
-    ["add_S", "add_A", "add_Ad", "radd_S", "radd_A", "radd_Ad", "sub_S", "sub_A", "sub_Ad", "rsub_S", "rsub_A", "rsub_Ad",
-     "mul_S", "mul_A", "mul_Ad", "rmul_S", "rmul_A", "pow_S", "pow_A", "pow_Ad", "rpow_S", "rpow_A", "rpow_Ad",
-     "truediv_S", "truediv_A", "truediv_Ad", "rtruediv_S", "rtruediv_A", "rtruediv_Ad", "neg",
-     "exp", "log", "abs", "safe_power", "sin", "cos", "tan", "arcsin", "arccos", "arctan", "sinh", "cosh", "tanh",
-     "arcsinh", "arccosh", "arctanh", "heaviside", "heaviside_smooth", "characteristic_function"] := by rfl
+/-- the generated rules are exactly the ones with a `rule_sound_*` theorem, every top-level function / class of functions.py
+    has one (the translator refuses to run otherwise), and the error table is the expected one -/
+theorem rules_covered :
+    (Gen.arith ++ Gen.lib ++ Gen.maxrules).map (·.name) =
+      ["add_S", "add_A", "add_Ad", "radd_S", "radd_A", "radd_Ad", "sub_S", "sub_A", "sub_Ad", "rsub_S", "rsub_A", "rsub_Ad",
+       "mul_S", "mul_A", "mul_Ad", "rmul_S", "rmul_A", "pow_S", "pow_A", "pow_Ad", "rpow_S", "rpow_A", "rpow_Ad",
+       "truediv_S", "truediv_A", "truediv_Ad", "rtruediv_S", "rtruediv_A", "rtruediv_Ad", "neg",
+       "exp", "log", "abs", "l2_norm_dim1", "safe_power", "sin", "cos", "tan", "arcsin", "arccos", "arctan", "sinh", "cosh", "tanh",
+       "arcsinh", "arccosh", "arctanh", "heaviside", "heaviside_smooth", "regularized_heaviside", "characteristic_function",
+       "maximum_AdAd", "maximum_AdA", "maximum_AdS", "maximum_AAd", "maximum_SAd"] ∧
+    Gen.l2_norm.name = "l2_norm" ∧
+    Gen.functions_found =
+      ["exp", "log", "abs", "l2_norm", "safe_power", "sin", "cos", "tan", "arcsin", "arccos", "arctan", "sinh", "cosh", "tanh",
+       "arcsinh", "arccosh", "arctanh", "heaviside", "heaviside_smooth", "RegularizedHeaviside", "maximum", "characteristic_function"] := by
+  refine ⟨by rfl, by rfl, by rfl⟩
 
 /-- sparse operands raise for everything but `M @ AdArray`; `AdArray @ anything` and non-sparse `x @ AdArray` raise -/
 theorem raising_table : Gen.raising =
@@ -566,15 +765,144 @@ theorem raising_table : Gen.raising =
      ("matmul_A", "ValueError"), ("matmul_Ad", "ValueError"), ("matmul_Sp", "ValueError"), ("rmatmul_S", "ValueError"),
      ("rmatmul_A", "ValueError"), ("rmatmul_Ad", "ValueError")] := by rfl
 
-/-- every library function computes the same value expression for an AdArray as for a plain numpy array -/
-theorem lib_plain_eq_val : Gen.lib.map (·.plain) = Gen.lib.map (fun r => some r.val) := by rfl
+/-- every library function that answers for a plain numpy array computes the same value expression as for an AdArray
+    (`plain = none`: l2_norm_dim1, which delegates to abs, and functions listed in `Gen.plain_raising`) -/
+theorem lib_plain_eq_val :
+    (Gen.lib ++ Gen.maxrules).map (fun r => r.plain.getD r.val) = (Gen.lib ++ Gen.maxrules).map (·.val) ∧
+    Gen.l2_norm.plain = some Gen.l2_norm.val := by
+  refine ⟨by rfl, by rfl⟩
 
-/-! ## program trees -/
+/-- the numpy-array branch of `RegularizedHeaviside.__call__` calls `np.heaviside` with one argument (TypeError; finding
+    C01 regularized-heaviside-ndarray); no other library function raises on a numpy array -/
+theorem plain_raising_known :
+    Gen.plain_raising = [] ∨ Gen.plain_raising = [("regularized_heaviside", "TypeError")] := by
+  first
+    | exact Or.inl rfl
+    | exact Or.inr rfl
 
-theorem ad_val {n : Nat} (e : Expr n) (hv : e.ValSpec) (X : Pt n) : ∀ i, (e.ad X i).v = e.den X i := by
+/-! ## where the rules are NOT required: kinks (isolated, measure zero) vs. domain restrictions
+
+"wherever the expression is differentiable": outside the domains of the `rule_sound_*` theorems nothing is claimed.  The
+excluded sets are of two kinds (complete list, in the order of functions.py / forward_mode.py):
+
+KINKS — points inside numpy's domain where the function itself is not differentiable; isolated points / a hyperplane,
+Lebesgue measure zero; the code returns some one-sided or conventional value there:
+  abs                      x = 0                  (Jacobian factor sign(0) = 0)            `abs_kink`
+  l2_norm, dim = 1         x = 0                  (delegates to abs)
+  l2_norm, dim ≥ 2         ‖x‖ ≤ tol = 1e-12      (factors set to 1; at x = 0 not differentiable) `l2_norm_kink`
+  heaviside                x = 0                  (jump)                                     `heaviside_kink`
+  characteristic_function  |x| = tol              (jump)
+  safe_power               |x| = tol              (jump between x**power and zero_val)
+  maximum                  x = y (ties)           (row of the FIRST argument)               `maximum_kink`
+  regularized_heaviside    (never the derivative of its value, by design: `regularized_heaviside_not_exact`)
+DOMAIN RESTRICTIONS — numpy's real function is undefined / infinite (nan, inf) or has an infinite derivative there:
+  log x ≤ 0;  tan cos x = 0;  arcsin, arccos |x| ≥ 1;  arccosh x ≤ 1;  arctanh |x| ≥ 1;
+  AdArray ** c: x = 0 with c < 1;  AdArray ** AdArray: base x ≤ 0;  c ** AdArray: c ≤ 0;
+  AdArray / c: c = 0;  c / AdArray, AdArray / AdArray: denominator 0;  heaviside_smooth eps = 0;
+  safe_power: x = 0 with power < 1 inside |x| > tol (impossible for tol ≥ 0).
+NO EXCLUSION: + − * (all operand kinds), neg, exp, sin, cos, arctan, sinh, cosh, tanh, arcsinh, left matrix products,
+  slicing, initAdArrays.
+`excluded_sets` states the complements of the theorem domains in this form; the four `*_kink` theorems show that the kink
+exclusions are necessary (the function is not differentiable there, so no Jacobian could be "the derivative"). -/
+
+
+theorem abs_kink : ¬ DifferentiableAt ℝ (fun x : ℝ => |x|) 0 := not_differentiableAt_abs_zero
+
+theorem heaviside_kink (z : ℝ) : ¬ DifferentiableAt ℝ (fun x => heavisideR x z) 0 := by
+  intro h
+  have hc := h.continuousAt
+  have hl : Filter.Tendsto (fun x => heavisideR x z) (nhdsWithin 0 (Set.Iio 0)) (nhds (heavisideR 0 z)) :=
+    hc.tendsto.mono_left nhdsWithin_le_nhds
+  have hr : Filter.Tendsto (fun x => heavisideR x z) (nhdsWithin 0 (Set.Ioi 0)) (nhds (heavisideR 0 z)) :=
+    hc.tendsto.mono_left nhdsWithin_le_nhds
+  have hl0 : Filter.Tendsto (fun x => heavisideR x z) (nhdsWithin 0 (Set.Iio 0)) (nhds 0) := by
+    refine tendsto_const_nhds.congr' ?_
+    filter_upwards [self_mem_nhdsWithin] with x hx
+    simp [heavisideR, Set.mem_Iio.mp hx]
+  have hr1 : Filter.Tendsto (fun x => heavisideR x z) (nhdsWithin 0 (Set.Ioi 0)) (nhds 1) := by
+    refine tendsto_const_nhds.congr' ?_
+    filter_upwards [self_mem_nhdsWithin] with x hx
+    have hx' : (0 : ℝ) < x := hx
+    simp [heavisideR, not_lt.mpr hx'.le, hx'.ne']
+  have e0 := tendsto_nhds_unique hl hl0
+  have e1 := tendsto_nhds_unique hr hr1
+  rw [e0] at e1
+  exact zero_ne_one e1
+
+theorem maximum_kink (a : ℝ) : ¬ DifferentiableAt ℝ (fun p : ℝ × ℝ => max p.1 p.2) (a, a) := by
+  intro h
+  have hline : DifferentiableAt ℝ (fun t : ℝ => (a + t, a)) 0 := by fun_prop
+  have h' : DifferentiableAt ℝ (fun p : ℝ × ℝ => max p.1 p.2) ((fun t : ℝ => (a + t, a)) 0) := by simpa using h
+  have hg0 : DifferentiableAt ℝ ((fun p : ℝ × ℝ => max p.1 p.2) ∘ (fun t : ℝ => (a + t, a))) 0 := h'.comp 0 hline
+  have hg : DifferentiableAt ℝ (fun t : ℝ => max (a + t) a) 0 := hg0
+  have habs : DifferentiableAt ℝ (fun t : ℝ => 2 * max (a + t) a - 2 * a - t) 0 := by fun_prop
+  have e : (fun t : ℝ => 2 * max (a + t) a - 2 * a - t) = fun t => |t| := by
+    funext t
+    rcases le_total 0 t with ht | ht
+    · rw [max_eq_left (by linarith), abs_of_nonneg ht]; ring
+    · rw [max_eq_right (by linarith), abs_of_nonpos ht]; ring
+  rw [e] at habs
+  exact abs_kink habs
+
+theorem l2_norm_kink (d : ℕ) (k : Fin d) : ¬ DifferentiableAt ℝ (norm2 (d := d)) 0 := by
+  intro h
+  have hline : DifferentiableAt ℝ (fun t : ℝ => (Pi.single k t : Fin d → ℝ)) 0 := by
+    have : (fun t : ℝ => (Pi.single k t : Fin d → ℝ)) = fun t => t • (Pi.single k (1 : ℝ) : Fin d → ℝ) := by
+      funext t; ext j; by_cases hj : j = k <;> simp [Pi.single_apply, hj]
+    rw [this]; fun_prop
+  have h' : DifferentiableAt ℝ (norm2 (d := d)) ((fun t : ℝ => (Pi.single k t : Fin d → ℝ)) 0) := by simpa using h
+  have hg := h'.comp 0 hline
+  have e : (norm2 (d := d)) ∘ (fun t : ℝ => (Pi.single k t : Fin d → ℝ)) = fun t => |t| := by
+    funext t
+    simp only [Function.comp, norm2]
+    rw [Finset.sum_eq_single k]
+    · simp [Real.sqrt_sq_eq_abs]
+    · intro j _ hj; simp [Pi.single_apply, hj]
+    · intro hk; exact absurd (Finset.mem_univ k) hk
+  rw [e] at hg
+  exact abs_kink hg
+
+
+/-- the complements of the domains used in the `rule_sound_*` theorems, in closed form (see the table above) -/
+theorem excluded_sets :
+    -- kinks
+    {x : ℝ | ¬ x ≠ 0} = {0} ∧
+    (∀ tol : ℝ, {x : ℝ | ¬ |x| ≠ tol} ⊆ {tol, -tol}) ∧
+    {p : ℝ × ℝ | ¬ p.1 ≠ p.2} = {p | p.1 = p.2} ∧
+    -- domain restrictions
+    {x : ℝ | ¬ 0 < x} = Set.Iic 0 ∧
+    {x : ℝ | ¬ (-1 < x ∧ x < 1)} = Set.Iic (-1) ∪ Set.Ici 1 ∧
+    {x : ℝ | ¬ 1 < x} = Set.Iic 1 ∧
+    {p : ℝ × ℝ | ¬ (p.1 ≠ 0 ∨ 1 ≤ p.2)} = {p | p.1 = 0 ∧ p.2 < 1} := by
+  refine ⟨?_, ?_, ?_, ?_, ?_, ?_, ?_⟩
+  · ext x; simp
+  · intro tol x hx
+    have hx' : |x| = tol := by simpa using hx
+    rcases abs_cases x with ⟨h, _⟩ | ⟨h, _⟩
+    · left; linarith
+    · right; show x = -tol; linarith
+  · ext p; simp
+  · ext x; simp [Set.mem_Iic, not_lt]
+  · ext x
+    simp only [Set.mem_ofPred_eq, Set.mem_union, Set.mem_Iic, Set.mem_Ici, not_and_or, not_lt]
+  · ext x; simp [Set.mem_Iic, not_lt]
+  · ext p; simp [not_or, not_le]
+
+/-- the kink exclusions are necessary: at these points the function is not differentiable at all -/
+theorem kinks_necessary :
+    (¬ DifferentiableAt ℝ (fun x : ℝ => |x|) 0) ∧
+    (∀ z : ℝ, ¬ DifferentiableAt ℝ (fun x => heavisideR x z) 0) ∧
+    (∀ a : ℝ, ¬ DifferentiableAt ℝ (fun p : ℝ × ℝ => max p.1 p.2) (a, a)) ∧
+    (∀ (d : ℕ) (_ : Fin d), ¬ DifferentiableAt ℝ (norm2 (d := d)) 0) :=
+  ⟨abs_kink, heaviside_kink, maximum_kink, fun d k => l2_norm_kink d k⟩
+
+/-! ## program trees and programs with shared results -/
+
+theorem ad_val {n : Nat} (e : Expr n) (hv : e.ValSpec) (σ : ℕ → ℕ → Dual n) (ρ : ℕ → ℕ → ℝ)
+    (hσ : ∀ j i, (σ j i).v = ρ j i) (X : Pt n) : ∀ i, (e.ad σ X i).v = e.den ρ X i := by
   induction e with
   | var idx => intro i; rfl
-  | const c => intro i; rfl
+  | ref j => intro i; exact hσ j i
   | map1 r F c e ih =>
     intro i
     simp only [Expr.ad, Expr.den]
@@ -588,48 +916,36 @@ theorem ad_val {n : Nat} (e : Expr n) (hv : e.ValSpec) (X : Pt n) : ∀ i, (e.ad
     simp only [Expr.ad, Expr.den]
     exact Finset.sum_congr rfl (fun k _ => by rw [ih hv k])
   | slice idx e ih => intro i; exact ih hv (idx i)
-  | l2norm dim e ih =>
+  | l2norm r dim e ih =>
     intro i
-    simp only [Expr.ad, Expr.den]
+    simp only [Expr.ad, Expr.den, norm2]
+    rw [hv.2]
     congr 1
-    exact Finset.sum_congr rfl (fun k _ => by rw [ih hv _])
-  | maximum e₁ e₂ ih₁ ih₂ =>
-    intro i
-    simp only [Expr.ad, Expr.den]
-    have h1 := ih₁ hv.1 i
-    have h2 := ih₂ hv.2 i
-    by_cases h : (e₂.ad X i).v > (e₁.ad X i).v
-    · rw [if_pos h, h2]
-      rw [h1, h2] at h
-      exact (max_eq_right h.le).symm
-    · rw [if_neg h, h1]
-      rw [h1, h2] at h
-      exact (max_eq_left (not_lt.mp h)).symm
+    exact Finset.sum_congr rfl (fun k _ => by rw [ih hv.1 _])
 
-theorem ad_jac {n : Nat} (e : Expr n) (hv : e.ValSpec) (X : Pt n) (hs : e.Smooth X) :
-    ∀ i, HasFDerivAt (fun Y => e.den Y i) (lin (e.ad X i).g) X := by
+theorem ad_jac {n : Nat} (e : Expr n) (hv : e.ValSpec) (σ : ℕ → ℕ → Dual n) (ρ : Pt n → ℕ → ℕ → ℝ) (X : Pt n)
+    (hσ : ∀ j i, (σ j i).v = ρ X j i)
+    (hρ : ∀ j i, HasFDerivAt (fun Y => ρ Y j i) (lin (σ j i).g) X)
+    (hs : e.Smooth (ρ X) X) :
+    ∀ i, HasFDerivAt (fun Y => e.den (ρ Y) Y i) (lin (e.ad σ X i).g) X := by
   induction e with
   | var idx =>
     intro i
     simp only [Expr.ad, Expr.den]
     rw [lin_single]
     exact hasFDerivAt_apply (idx i) X
-  | const c =>
-    intro i
-    simp only [Expr.ad, Expr.den]
-    rw [lin_zero]
-    exact hasFDerivAt_const (c i) X
+  | ref j => intro i; exact hρ j i
   | map1 r F c e ih =>
     intro i
     have h := (hs.2 i).comp_hasFDerivAt X (ih hv.1 hs.1 i)
     simp only [Expr.ad, Expr.den]
-    rw [lin_smul, ad_val e hv.1 X i]
+    rw [lin_smul, ad_val e hv.1 σ (ρ X) hσ X i]
     exact h
   | map2 r F e₁ e₂ ih₁ ih₂ =>
     intro i
     have h := (hs.2.2 i).comp X ((ih₁ hv.1 hs.1 i).prodMk (ih₂ hv.2.1 hs.2.1 i))
     simp only [Expr.ad, Expr.den]
-    rw [lin_add_smul, ad_val e₁ hv.1 X i, ad_val e₂ hv.2.1 X i]
+    rw [lin_add_smul, ad_val e₁ hv.1 σ (ρ X) hσ X i, ad_val e₂ hv.2.1 σ (ρ X) hσ X i]
     refine h.congr_fderiv ?_
     ext Y
     simp
@@ -639,60 +955,124 @@ theorem ad_jac {n : Nat} (e : Expr n) (hv : e.ValSpec) (X : Pt n) (hs : e.Smooth
     rw [lin_sum]
     exact HasFDerivAt.fun_sum (fun k _ => (ih hv hs k).const_mul (M i k))
   | slice idx e ih => intro i; exact ih hv hs (idx i)
-  | l2norm dim e ih =>
+  | l2norm r dim e ih =>
     intro i
+    have hval : ∀ k : Fin dim, (e.ad σ X (dim * i + k)).v = e.den (ρ X) X (dim * i + k) :=
+      fun k => ad_val e hv.1 σ (ρ X) hσ X _
+    have hΦ : HasFDerivAt (fun Y => fun k : Fin dim => e.den (ρ Y) Y (dim * i + k))
+        (ContinuousLinearMap.pi fun k : Fin dim => lin (e.ad σ X (dim * i + k)).g) X :=
+      hasFDerivAt_pi.2 (fun k => ih hv.1 hs.1 (dim * i + k))
+    have h := (hs.2 i).comp X hΦ
     simp only [Expr.ad, Expr.den]
-    have hval : ∀ k, (e.ad X (dim * i + k)).v = e.den X (dim * i + k) := fun k => ad_val e hv X _
     simp only [hval]
-    set S : ℝ := ∑ k ∈ Finset.range dim, (e.den X (dim * i + k)) ^ 2 with hS
-    have hpos : l2tol < √S := hs.2 i
-    have htol : (0 : ℝ) < l2tol := by unfold l2tol; positivity
-    have hn : √S ≠ 0 := (lt_trans htol hpos).ne'
-    have hS0 : S ≠ 0 := fun h0 => hn (by rw [h0, Real.sqrt_zero])
-    have hsum : HasFDerivAt (fun Y => ∑ k ∈ Finset.range dim, (e.den Y (dim * i + k)) ^ 2)
-        (∑ k ∈ Finset.range dim, (2 * e.den X (dim * i + k)) • lin (e.ad X (dim * i + k)).g) X := by
-      refine HasFDerivAt.fun_sum (fun k _ => ?_)
-      have hk := ih hv hs.1 (dim * i + k)
-      have h2 := hk.mul hk
-      have hf : (fun Y => (e.den Y (dim * i + k)) ^ 2) = (fun Y => e.den Y (dim * i + k)) * (fun Y => e.den Y (dim * i + k)) := by
-        funext Y; simp [pow_two]
-      rw [hf]
-      refine h2.congr_fderiv ?_
-      ext Y
-      simp
-      ring
-    have hsq := hsum.sqrt hS0
-    refine hsq.congr_fderiv ?_
-    rw [← hS]
-    have hpos' : √S > l2tol := hpos
-    simp only [if_pos hpos']
-    have := lin_sum (Finset.range dim) (fun k => e.den X (dim * i + k) / √S) (fun k => (e.ad X (dim * i + k)).g)
-    rw [this, Finset.smul_sum]
-    refine Finset.sum_congr rfl (fun k _ => ?_)
-    rw [smul_smul]
-    congr 1
-    field_simp
-  | maximum e₁ e₂ ih₁ ih₂ =>
-    intro i
-    have h1 := ih₁ hv.1 hs.1 i
-    have h2 := ih₂ hv.2 hs.2.1 i
-    simp only [Expr.ad, Expr.den]
-    rw [ad_val e₁ hv.1 X i, ad_val e₂ hv.2 X i]
-    rcases lt_or_gt_of_ne (hs.2.2 i) with h | h
-    · rw [if_pos h]
-      refine h2.congr_of_eventuallyEq ?_
-      filter_upwards [h1.continuousAt.eventually_lt h2.continuousAt h] with Y hY
-      exact max_eq_right hY.le
-    · rw [if_neg (not_lt.mpr h.le)]
-      refine h1.congr_of_eventuallyEq ?_
-      filter_upwards [h2.continuousAt.eventually_lt h1.continuousAt h] with Y hY
-      exact max_eq_left hY.le
+    rw [lin_sum]
+    refine h.congr_fderiv ?_
+    ext Y
+    simp [sum_apply]
+
+/-- sharing = substitution: evaluating an expression whose `ref j` are bound to the values of closed expressions `L j`
+    gives the same as evaluating the expression with the `L j` substituted -/
+theorem den_subst {n : Nat} (L : ℕ → Expr n) (ρ₀ : ℕ → ℕ → ℝ) (X : Pt n) (e : Expr n) :
+    ∀ i, (e.subst L).den ρ₀ X i = e.den (fun j => (L j).den ρ₀ X) X i := by
+  induction e with
+  | var idx => intro i; rfl
+  | ref j => intro i; rfl
+  | map1 r F c e ih => intro i; simp only [Expr.subst, Expr.den, ih]
+  | map2 r F e₁ e₂ ih₁ ih₂ => intro i; simp only [Expr.subst, Expr.den, ih₁, ih₂]
+  | matmul M cols e ih => intro i; simp only [Expr.subst, Expr.den, ih]
+  | slice idx e ih => intro i; simp only [Expr.subst, Expr.den, ih]
+  | l2norm r dim e ih => intro i; simp only [Expr.subst, Expr.den, ih]
+
+theorem ad_subst {n : Nat} (L : ℕ → Expr n) (σ₀ : ℕ → ℕ → Dual n) (X : Pt n) (e : Expr n) :
+    ∀ i, (e.subst L).ad σ₀ X i = e.ad (fun j => (L j).ad σ₀ X) X i := by
+  induction e with
+  | var idx => intro i; rfl
+  | ref j => intro i; rfl
+  | map1 r F c e ih => intro i; simp only [Expr.subst, Expr.ad, ih]
+  | map2 r F e₁ e₂ ih₁ ih₂ => intro i; simp only [Expr.subst, Expr.ad, ih₁, ih₂]
+  | matmul M cols e ih => intro i; simp only [Expr.subst, Expr.ad, ih]
+  | slice idx e ih => intro i; simp only [Expr.subst, Expr.ad, ih]
+  | l2norm r dim e ih => intro i; simp only [Expr.subst, Expr.ad, ih]
+
+/-- the invariant carried through a sequence of let-bindings -/
+def EnvOK {n : Nat} (ρ : Pt n → ℕ → ℕ → ℝ) (σ : ℕ → ℕ → Dual n) (X : Pt n) : Prop :=
+  (∀ j i, (σ j i).v = ρ X j i) ∧ ∀ j i, HasFDerivAt (fun Y => ρ Y j i) (lin (σ j i).g) X
+
+theorem env_ok {n : Nat} (X : Pt n) (ds : List (Expr n)) :
+    ∀ (k : ℕ) (ρ : Pt n → ℕ → ℕ → ℝ) (σ : ℕ → ℕ → Dual n),
+      (∀ d ∈ ds, d.ValSpec) → EnvOK ρ σ X → letsSmooth X ds k (ρ X) →
+      EnvOK (fun Y => envDen Y ds k (ρ Y)) (envAd X ds k σ) X := by
+  induction ds with
+  | nil => intro k ρ σ _ h _; exact h
+  | cons d ds ih =>
+    intro k ρ σ hv h hs
+    have hvd : d.ValSpec := hv d (List.mem_cons_self ..)
+    have hvs : ∀ d' ∈ ds, d'.ValSpec := fun d' hd' => hv d' (List.mem_cons_of_mem _ hd')
+    simp only [envDen, envAd]
+    refine ih (k + 1) (fun Y => Function.update (ρ Y) k (d.den (ρ Y) Y)) (Function.update σ k (d.ad σ X)) hvs ?_ hs.2
+    constructor
+    · intro j i
+      by_cases hj : j = k
+      · subst hj
+        simp only [Function.update_self]
+        exact ad_val d hvd σ (ρ X) h.1 X i
+      · simp only [Function.update_of_ne hj]
+        exact h.1 j i
+    · intro j i
+      by_cases hj : j = k
+      · subst hj
+        simp only [Function.update_self]
+        exact ad_jac d hvd σ ρ X h.1 h.2 hs.1 i
+      · simp only [Function.update_of_ne hj]
+        exact h.2 j i
+
+theorem env_val {n : Nat} (X : Pt n) (ds : List (Expr n)) :
+    ∀ (k : ℕ) (ρ : ℕ → ℕ → ℝ) (σ : ℕ → ℕ → Dual n),
+      (∀ d ∈ ds, d.ValSpec) → (∀ j i, (σ j i).v = ρ j i) →
+      ∀ j i, (envAd X ds k σ j i).v = envDen X ds k ρ j i := by
+  induction ds with
+  | nil => intro k ρ σ _ h; exact h
+  | cons d ds ih =>
+    intro k ρ σ hv h
+    have hvd : d.ValSpec := hv d (List.mem_cons_self ..)
+    have hvs : ∀ d' ∈ ds, d'.ValSpec := fun d' hd' => hv d' (List.mem_cons_of_mem _ hd')
+    simp only [envDen, envAd]
+    refine ih (k + 1) _ _ hvs ?_
+    intro j i
+    by_cases hj : j = k
+    · subst hj
+      simp only [Function.update_self]
+      exact ad_val d hvd σ ρ h X i
+    · simp only [Function.update_of_ne hj]
+      exact h j i
+
+theorem env0_ok {n : Nat} (X : Pt n) : EnvOK (fun _ : Pt n => Prog.env0) (Prog.envAd0 n) X := by
+  constructor
+  · intro j i; rfl
+  · intro j i
+    simp only [Prog.env0, Prog.envAd0]
+    rw [lin_zero]
+    exact hasFDerivAt_const (0 : ℝ) X
+
+/-- programs with shared results: forward-mode values are the plain evaluation … -/
+theorem prog_ad_val {n : Nat} (p : Prog n) (hv : p.ValSpec) (X : Pt n) :
+    ∀ i, (p.ad X i).v = p.den X i := by
+  have h := env_val X p.lets 0 Prog.env0 (Prog.envAd0 n) hv.1 (fun _ _ => rfl)
+  intro i
+  exact ad_val p.body hv.2 _ _ h X i
+
+/-- … and every Jacobian row is the Fréchet derivative of that output component. -/
+theorem prog_ad_jac {n : Nat} (p : Prog n) (hv : p.ValSpec) (X : Pt n) (hs : p.Smooth X) :
+    ∀ i, HasFDerivAt (fun Y => p.den Y i) (lin (p.ad X i).g) X := by
+  have h := env_ok X p.lets 0 (fun _ => Prog.env0) (Prog.envAd0 n) hv.1 (env0_ok X) hs.1
+  intro i
+  exact ad_jac p.body hv.2 _ (fun Y => envDen Y p.lets 0 Prog.env0) X h.1 h.2 hs.2 i
 
 
 /-- a generated rule that is sound may be used at a node wherever its domain condition holds … -/
 theorem Sound1.smooth_map1 {n : Nat} {r : Rule} {F : ℝ → ℝ → ℝ} {dom : ℝ → ℝ → Prop} (h : Sound1 r F dom)
-    {e : Expr n} {X : Pt n} {c : ℕ → ℝ} (he : e.Smooth X) (hd : ∀ i, dom (e.den X i) (c i)) :
-    (Expr.map1 r F c e).Smooth X :=
+    {e : Expr n} {ρ : ℕ → ℕ → ℝ} {X : Pt n} {c : ℕ → ℝ} (he : e.Smooth ρ X) (hd : ∀ i, dom (e.den ρ X i) (c i)) :
+    (Expr.map1 r F c e).Smooth ρ X :=
   ⟨he, fun i => h.deriv _ _ (hd i)⟩
 
 theorem Sound1.valspec_map1 {n : Nat} {r : Rule} {F : ℝ → ℝ → ℝ} {dom : ℝ → ℝ → Prop} (h : Sound1 r F dom)
@@ -700,40 +1080,57 @@ theorem Sound1.valspec_map1 {n : Nat} {r : Rule} {F : ℝ → ℝ → ℝ} {dom 
   ⟨he, h.val⟩
 
 theorem Sound2.smooth_map2 {n : Nat} {r : Rule} {F : ℝ → ℝ → ℝ} {dom : ℝ → ℝ → Prop} (h : Sound2 r F dom)
-    {e₁ e₂ : Expr n} {X : Pt n} (h₁ : e₁.Smooth X) (h₂ : e₂.Smooth X) (hd : ∀ i, dom (e₁.den X i) (e₂.den X i)) :
-    (Expr.map2 r F e₁ e₂).Smooth X :=
+    {e₁ e₂ : Expr n} {ρ : ℕ → ℕ → ℝ} {X : Pt n} (h₁ : e₁.Smooth ρ X) (h₂ : e₂.Smooth ρ X) (hd : ∀ i, dom (e₁.den ρ X i) (e₂.den ρ X i)) :
+    (Expr.map2 r F e₁ e₂).Smooth ρ X :=
   ⟨h₁, h₂, fun i => h.deriv _ _ (hd i)⟩
 
 theorem Sound2.valspec_map2 {n : Nat} {r : Rule} {F : ℝ → ℝ → ℝ} {dom : ℝ → ℝ → Prop} (h : Sound2 r F dom)
     {e₁ e₂ : Expr n} (h₁ : e₁.ValSpec) (h₂ : e₂.ValSpec) : (Expr.map2 r F e₁ e₂).ValSpec :=
   ⟨h₁, h₂, h.val⟩
 
-/-! ### non-vacuity: domains are inhabited, and a concrete program built from generated rules -/
+/-! ### non-vacuity: domains are inhabited, and a concrete program with a SHARED result built from generated rules -/
 
-example : (0 : ℝ) < 2 ∧ Real.cos 0 ≠ 0 ∧ ((-1 : ℝ) < 1 / 2 ∧ (1 / 2 : ℝ) < 1) ∧ (1 : ℝ) < 2 ∧ (3 : ℝ) ≠ 0 ∧ |(3 : ℝ)| ≠ 1 := by
-  refine ⟨by norm_num, by simp, ⟨by norm_num, by norm_num⟩, by norm_num, by norm_num, by norm_num⟩
+example : (0 : ℝ) < 2 ∧ Real.cos 0 ≠ 0 ∧ ((-1 : ℝ) < 1 / 2 ∧ (1 / 2 : ℝ) < 1) ∧ (1 : ℝ) < 2 ∧ (3 : ℝ) ≠ 0 ∧ |(3 : ℝ)| ≠ 1
+    ∧ l2tol < norm2 (fun _ : Fin 2 => (1 : ℝ)) := by
+  refine ⟨by norm_num, by simp, ⟨by norm_num, by norm_num⟩, by norm_num, by norm_num, by norm_num, ?_⟩
+  have h1 : (1 : ℝ) ≤ norm2 (fun _ : Fin 2 => (1 : ℝ)) := by
+    unfold norm2
+    rw [show (∑ _k : Fin 2, (1 : ℝ) ^ 2) = 2 by simp]
+    exact Real.one_le_sqrt.mpr (by norm_num)
+  have h2 : l2tol < 1 := by unfold l2tol; norm_num
+  linarith
 
-/-- `log(x₀ * x₁) * sin(x₀) + 3` with rows taken from the generated rules -/
-noncomputable def demo : Expr 2 :=
-  .map1 Gen.add_S (fun x c => x + c) (fun _ => 3)
-    (.map2 Gen.mul_Ad (fun x y => x * y)
-      (.map1 Gen.log (fun x _ => Real.log x) (fun _ => 0)
-        (.map2 Gen.mul_Ad (fun x y => x * y) (.var (fun _ => 0)) (.var (fun _ => 1))))
-      (.map1 Gen.sin (fun x _ => Real.sin x) (fun _ => 0) (.var (fun _ => 0))))
+/-- `m = maximum(x₀·x₁, x₀);  log(m) * sin(x₀) + m`: the shared result `m` is used twice -/
+noncomputable def demo : Prog 2 where
+  lets := [.map2 Gen.maximum_AdAd (fun x y => max x y)
+            (.map2 Gen.mul_Ad (fun x y => x * y) (.var (fun _ => 0)) (.var (fun _ => 1))) (.var (fun _ => 0))]
+  body := .map2 Gen.add_Ad (fun x y => x + y)
+            (.map2 Gen.mul_Ad (fun x y => x * y)
+              (.map1 Gen.log (fun x _ => Real.log x) (fun _ => 0) (.ref 0))
+              (.map1 Gen.sin (fun x _ => Real.sin x) (fun _ => 0) (.var (fun _ => 0))))
+            (.ref 0)
 
-example (X : Pt 2) (hX : 0 < X 0 * X 1) (i : ℕ) :
-    (demo.ad X i).v = Real.log (X 0 * X 1) * Real.sin (X 0) + 3 ∧
-    HasFDerivAt (fun Y : Pt 2 => Real.log (Y 0 * Y 1) * Real.sin (Y 0) + 3) (lin (demo.ad X i).g) X := by
-  have hv : demo.ValSpec :=
-    rule_sound_add_S.valspec_map1 (rule_sound_mul_Ad.valspec_map2
-      (rule_sound_log.valspec_map1 (rule_sound_mul_Ad.valspec_map2 trivial trivial))
-      (rule_sound_sin.valspec_map1 trivial))
-  have h01 : (Expr.map2 Gen.mul_Ad (fun x y => x * y) (.var (fun _ => (0 : Fin 2))) (.var (fun _ => 1))).Smooth X :=
-    rule_sound_mul_Ad.smooth_map2 trivial trivial (fun _ => trivial)
-  have hs : demo.Smooth X :=
-    rule_sound_add_S.smooth_map1 (rule_sound_mul_Ad.smooth_map2
-      (rule_sound_log.smooth_map1 h01 (fun _ => hX))
-      (rule_sound_sin.smooth_map1 trivial (fun _ => trivial)) (fun _ => trivial)) (fun _ => trivial)
-  exact ⟨ad_val demo hv X i, ad_jac demo hv X hs i⟩
+example (X : Pt 2) (hX : 0 < X 0) (hne : X 0 * X 1 ≠ X 0) (i : ℕ) :
+    (demo.ad X i).v = Real.log (max (X 0 * X 1) (X 0)) * Real.sin (X 0) + max (X 0 * X 1) (X 0) ∧
+    HasFDerivAt (fun Y : Pt 2 => Real.log (max (Y 0 * Y 1) (Y 0)) * Real.sin (Y 0) + max (Y 0 * Y 1) (Y 0))
+      (lin (demo.ad X i).g) X := by
+  have hv : demo.ValSpec := by
+    refine ⟨?_, ?_⟩
+    · intro d hd
+      simp only [demo, List.mem_singleton] at hd
+      subst hd
+      exact rule_sound_maximum_AdAd.valspec_map2 (rule_sound_mul_Ad.valspec_map2 trivial trivial) trivial
+    · exact rule_sound_add_Ad.valspec_map2 (rule_sound_mul_Ad.valspec_map2
+        (rule_sound_log.valspec_map1 trivial) (rule_sound_sin.valspec_map1 trivial)) trivial
+  have hs : demo.Smooth X := by
+    refine ⟨⟨?_, trivial⟩, ?_⟩
+    · exact rule_sound_maximum_AdAd.smooth_map2 (rule_sound_mul_Ad.smooth_map2 trivial trivial (fun _ => trivial)) trivial
+        (fun _ => hne)
+    · refine rule_sound_add_Ad.smooth_map2 (rule_sound_mul_Ad.smooth_map2
+        (rule_sound_log.smooth_map1 trivial (fun _ => ?_)) (rule_sound_sin.smooth_map1 trivial (fun _ => trivial))
+        (fun _ => trivial)) trivial (fun _ => trivial)
+      show 0 < max (X 0 * X 1) (X 0)
+      exact lt_max_of_lt_right hX
+  exact ⟨prog_ad_val demo hv X i, prog_ad_jac demo hv X hs i⟩
 
 end PorepyVerif.C01
